@@ -1,5 +1,10 @@
 /*
- * models/libc_string.c -- executable models of the libc string functions (C11 7.24), used instead of CBMC's
+ * models/http_string.c -- PRIVATE COPY of models/libc_string.c for the http groups, with one mechanical change:
+ * every local that is assigned inside a model loop is address-taken (VERIF_DIRTY), because cbmc 6.11 DFCC with
+ * --apply-loop-contracts checks such assignments against the write set but tracks the DECL only of address-taken
+ * locals ("Check that i is assignable" fails otherwise).  Semantics identical to libc_string.c.
+ *
+ * original header: models/libc_string.c -- executable models of the libc string functions (C11 7.24), used instead of CBMC's
  * built-in ones, whose scanning loops are unbounded.  Every scan is a loop with the compile-time bound
  * VERIF_STRMAX (fully unwound by CBMC: complete for strings shorter than the bound).  Reads go through ordinary
  * dereferences, so a string that is not NUL-terminated inside its object makes a pointer check FAIL at the call
@@ -13,10 +18,7 @@
 #ifndef VERIF_STRMAX
 #define VERIF_STRMAX 72
 #endif
-#ifndef VERIF_NATIVE
-#pragma CPROVER check push
-#pragma CPROVER check disable "conversion"
-#endif
+#define VERIF_DIRTY(v) do { void * volatile verif_dirty_p = &(v); (void)verif_dirty_p; } while (0)
 #ifdef VERIF_NATIVE
 #define MODEL_BOUND(what) do {} while (0)
 #define M(name) verif_model_##name
@@ -30,7 +32,7 @@ size_t
 M(strlen)(const char * s)
 {
 	size_t i;
-	(void)&i;	/* address-taken: DFCC tracks only 'dirty' locals assigned inside un-contracted loops */
+	VERIF_DIRTY(i);
 
 	for (i = 0; i < VERIF_STRMAX; i++)
 		if (s[i] == '\0')
@@ -43,7 +45,7 @@ char *
 M(strchr)(const char * s, int c)
 {
 	size_t i;
-	(void)&i;	/* address-taken: DFCC tracks only 'dirty' locals assigned inside un-contracted loops */
+	VERIF_DIRTY(i);
 
 	for (i = 0; i < VERIF_STRMAX; i++) {
 		if (s[i] == (char)c)
@@ -59,9 +61,9 @@ char *
 M(strrchr)(const char * s, int c)
 {
 	size_t i;
-	(void)&i;	/* address-taken: DFCC tracks only 'dirty' locals assigned inside un-contracted loops */
 	const char * r = NULL;
-	(void)&r;
+	VERIF_DIRTY(i);
+	VERIF_DIRTY(r);
 
 	for (i = 0; i < VERIF_STRMAX; i++) {
 		if (s[i] == (char)c)
@@ -77,7 +79,7 @@ int
 M(strcmp)(const char * a, const char * b)
 {
 	size_t i;
-	(void)&i;	/* address-taken: DFCC tracks only 'dirty' locals assigned inside un-contracted loops */
+	VERIF_DIRTY(i);
 
 	for (i = 0; i < VERIF_STRMAX; i++) {
 		unsigned char x = (unsigned char)a[i], y = (unsigned char)b[i];
@@ -94,7 +96,7 @@ int
 M(strncmp)(const char * a, const char * b, size_t n)
 {
 	size_t i;
-	(void)&i;	/* address-taken: DFCC tracks only 'dirty' locals assigned inside un-contracted loops */
+	VERIF_DIRTY(i);
 
 	for (i = 0; i < VERIF_STRMAX; i++) {
 		if (i >= n)
@@ -113,8 +115,8 @@ int
 M(memcmp)(const void * a, const void * b, size_t n)
 {
 	size_t i;
-	(void)&i;	/* address-taken: DFCC tracks only 'dirty' locals assigned inside un-contracted loops */
 	const unsigned char * x = a, * y = b;
+	VERIF_DIRTY(i);
 
 	for (i = 0; i < VERIF_STRMAX; i++) {
 		if (i >= n)
@@ -130,8 +132,8 @@ void *
 M(memchr)(const void * s, int c, size_t n)
 {
 	size_t i;
-	(void)&i;	/* address-taken: DFCC tracks only 'dirty' locals assigned inside un-contracted loops */
 	const unsigned char * x = s;
+	VERIF_DIRTY(i);
 
 	for (i = 0; i < VERIF_STRMAX; i++) {
 		if (i >= n)
@@ -147,7 +149,7 @@ size_t
 M(strspn)(const char * s, const char * accept)
 {
 	size_t i;
-	(void)&i;	/* address-taken: DFCC tracks only 'dirty' locals assigned inside un-contracted loops */
+	VERIF_DIRTY(i);
 
 	for (i = 0; i < VERIF_STRMAX; i++) {
 		if (s[i] == '\0' || M(strchr)(accept, s[i]) == NULL)
@@ -161,7 +163,7 @@ size_t
 M(strcspn)(const char * s, const char * reject)
 {
 	size_t i;
-	(void)&i;	/* address-taken: DFCC tracks only 'dirty' locals assigned inside un-contracted loops */
+	VERIF_DIRTY(i);
 
 	for (i = 0; i < VERIF_STRMAX; i++) {
 		if (s[i] == '\0' || M(strchr)(reject, s[i]) != NULL)
@@ -175,7 +177,7 @@ char *
 M(strstr)(const char * h, const char * n)
 {
 	size_t i, nl = M(strlen)(n);
-	(void)&i;
+	VERIF_DIRTY(i);
 
 	for (i = 0; i < VERIF_STRMAX; i++) {
 		if (M(strncmp)(&h[i], n, nl) == 0)
@@ -191,7 +193,7 @@ char *
 M(stpcpy)(char * dst, const char * src)
 {
 	size_t i;
-	(void)&i;	/* address-taken: DFCC tracks only 'dirty' locals assigned inside un-contracted loops */
+	VERIF_DIRTY(i);
 
 	for (i = 0; i < VERIF_STRMAX; i++) {
 		dst[i] = src[i];
@@ -217,7 +219,7 @@ strdup(const char * s)
 	size_t n = strlen(s);
 	char * r = malloc(n + 1);
 	size_t i;
-	(void)&i;	/* address-taken: DFCC tracks only 'dirty' locals assigned inside un-contracted loops */
+	VERIF_DIRTY(i);
 
 	if (r == NULL)
 		return (NULL);
@@ -228,7 +230,4 @@ strdup(const char * s)
 	}
 	return (r);
 }
-#endif
-#ifndef VERIF_NATIVE
-#pragma CPROVER check pop
 #endif
